@@ -402,6 +402,27 @@ func ruleC17_3(c *Ctx) {
 			}
 		}
 	})
+	// the key material handed to the block cipher is the decoded key as given: no slice of it (a key cut to the cipher's
+	// maximum size is accepted although it is not usable as given, and all keys sharing that prefix decrypt the cache)
+	cut := ""
+	instrsOf(ctor, func(in ssa.Instruction) {
+		cc := callOf(in)
+		if cc == nil || !callIsPkgFunc(cc, "crypto/aes", "NewCipher") {
+			return
+		}
+		c.P.TraceBack(cc.Args[0], TraceOpts{NoParams: true, NoHeapFields: true}, func(v ssa.Value, _ []int) bool {
+			if sl, ok := v.(*ssa.Slice); ok {
+				cut = c.P.InstrPos(sl) + " `" + sl.String() + "`"
+				return false
+			}
+			return true
+		})
+	})
+	if cut != "" {
+		c.Fail("C17.3", "key-as-given", "the decoded key reaches aes.NewCipher unmodified (a key of the wrong size is refused at open)", c.P.ShortName(ctor)+": the key is re-sliced at "+cut+" before it is used; over-long keys are accepted, and a wrong key that shares the kept prefix yields data")
+	} else {
+		c.Pass("C17.3", "key-as-given", "the decoded key reaches aes.NewCipher unmodified (a key of the wrong size is refused at open)", c.P.ShortName(ctor))
+	}
 	if okAES {
 		c.Pass("C17.3", "aead-constructor", "the encryptor is built with cipher.NewGCM over aes.NewCipher", c.P.ShortName(ctor))
 	} else {
@@ -508,6 +529,30 @@ func ruleC17_3(c *Ctx) {
 			c.Pass("C17.3", "no-bypass-"+pair.meth, d, fmt.Sprintf("%s: %d returns", c.P.ShortName(pair.fn), r.Targets))
 		default:
 			c.Fail("C17.3", "no-bypass-"+pair.meth, d, c.P.InstrPos(r.Missing[0])+": returns without error before "+pair.meth+"; "+pair.why)
+		}
+	}
+	// what Encrypt returns is storage of its own: the backend writes it to the file after Encrypt returned, and a second
+	// Set on the same handle may encrypt in between
+	for _, b := range enc.Blocks {
+		r, ok := b.Instrs[len(b.Instrs)-1].(*ssa.Return)
+		if !ok || len(r.Results) != 2 {
+			continue
+		}
+		v := c.An.RetVal(r, 0)
+		if isNilConst(v) {
+			continue
+		}
+		var foreign []string
+		for _, o := range c.sliceBacking(v) {
+			if o != "fresh" && o != "nil" {
+				foreign = append(foreign, o)
+			}
+		}
+		d := "Encrypt returns a buffer allocated for this call (not one kept in the encryptor)"
+		if len(foreign) > 0 {
+			c.Fail("C17.3", "ciphertext-owned", d, c.P.InstrPos(r)+": the returned slice may share storage with "+strings.Join(foreign, ", ")+"; two overlapping Sets on one handle overwrite each other's ciphertext between Encrypt and the file write (key A's file receives B's value, or a splice that fails authentication)")
+		} else {
+			c.Pass("C17.3", "ciphertext-owned", d, c.P.InstrPos(r))
 		}
 	}
 	// the Open error is returned (authentication failure is not swallowed)
